@@ -32,6 +32,9 @@ impl DataHash {
 //@ ret r
 //@ contract
         ensures is_zero(r),
+//@ before `DataHash([0; 4])`
+        // (tool artefact: when this query is scheduled before the `u64: Copy` trait axiom, the broadcast form of this vstd axiom is inert)
+        proof { vstd::array::axiom_spec_array_fill_for_copy_type::<u64, 4>(0u64); }
 //@ end
 }
 impl Clone for DataHash { #[verifier::external_body] fn clone(&self) -> (r: Self) ensures r == *self { unimplemented!() } }
